@@ -6,7 +6,7 @@ CASES = {'quick': 5000, 'thorough': 100000}
 SMALL_BLOCKS = 4      # runner: every 4th case keeps its stores in 2..10-token blocks
 GATES = {
     'quick': {'cost_documents': 150, 'cost_sibling_checks': 300, 'cases_in_small_blocks': 50, 'evaluations': 7000, 'ops_changing_tokens': 6000, 'slot_kinds_seen': 12, 'op_kinds_seen': 60, 'list_position_cells': 12,
-              'gap_checks': 1500, 'multi_value_at_index0_nonempty': 8, 'negative_index_ops': 150},
+              'gap_checks': 1500, 'multi_value_at_index0_nonempty': 8, 'negative_index_ops': 150, 'view_runs_with_a_sibling_inside': 25, 'view_foreign_element_checks_nonempty': 250},
     'thorough': {'evaluations': 250000, 'slot_kinds_seen': 12, 'op_kinds_seen': 70},
 }
 RULE = ('case = one accepted generated document parsed with default attribution (a third of them squeezed into 2..10-token blocks), '
@@ -166,6 +166,25 @@ def run_case(col, r, idx):
                     wit['after'] = common.store_text(f.token_store)
                     col.violation(f'wrong-child-affected:{op.kind}', f'{op.desc}: the call changed another element than the one it addresses ({msg})', wit)
                     return
+            if items_before is not None and op.attr != op.list_attr and (op.attr in _VIEW_TYPES or 'directives' in op.attr):
+                # a call through a view addresses elements of the view: the elements of the underlying list that the view does not
+                # show (links among tags, standalone comments among postings) are siblings and keep identity and order
+                t = _VIEW_TYPES.get(op.attr)
+                foreign = (lambda x: isinstance(x, models.BlockComment)) if t is None else (lambda x: not isinstance(x, t))
+                try:
+                    fb = [x for x in items_before if foreign(x)]
+                    fa = [x for x in getattr(op.parent, op.list_attr) if foreign(x)]
+                except Exception:
+                    fa = fb = None
+                if fb is not None:
+                    col.count('view_foreign_element_checks')
+                    if fb:
+                        col.count('view_foreign_element_checks_nonempty')
+                    if len(fa) != len(fb) or any(x is not y for x, y in zip(fa, fb)):
+                        wit['after'] = common.store_text(f.token_store)
+                        col.violation(f'sibling-outside-the-view-changed:{op.kind}', f'{op.desc}: elements of {op.list_attr} that {op.attr} does not '
+                                      f'show were {[common.pr(x) for x in fb]} and are {[common.pr(x) for x in fa]}', wit)
+                        return
             if items_before is not None and not op.kind.endswith(':assign'):     # a whole-list assignment brings its own gaps along
                 try:
                     items_after = list(getattr(op.parent, op.list_attr))
@@ -179,10 +198,77 @@ def run_case(col, r, idx):
                         wit['after'] = common.store_text(f.token_store)
                         col.violation(f'{v[0]}:{op.kind}', f'{op.desc}: {v[1]}', wit)
                         return
+        if idx % 2 == 0 and not _view_run_with_a_sibling_inside(col, r, f, text, lf, log):
+            return
         if idx % 397 == 0:
             col.sample({'text': text, 'lf': lf, 'ops': log, 'result': common.store_text(f.token_store)})
     finally:
         storemodel.set_load_factor(1000)
+
+
+def _view_run_with_a_sibling_inside(col, r, f, text, lf, log):
+    """A run of a view (two or more neighbouring elements of `tags`, `postings`, `raw_directives` ...) whose elements are not
+    neighbours in the underlying list - a link between two tags, a standalone comment between two postings - is deleted or
+    replaced through the view in one call: the element in between is a sibling. False = a violation was reported."""
+    from .c10 import FAMILIES
+    cands = []
+    for path, m in walker.tree_models(f):
+        for raw_attr, views in FAMILIES.items():
+            if ops.desc_of(type(m), raw_attr) is None:
+                continue
+            for v in views:
+                if ops.desc_of(type(m), v) is None or v in ('meta', 'values'):
+                    continue
+                t = _VIEW_TYPES.get(v)
+                shown = (lambda x: not isinstance(x, models.BlockComment)) if t is None else (lambda x, t=t: isinstance(x, t))
+                try:
+                    raw = list(getattr(m, raw_attr))
+                except Exception:
+                    continue
+                pos = [i for i, x in enumerate(raw) if shown(x)]
+                for a in range(len(pos) - 1):
+                    if pos[a + 1] - pos[a] > 1:
+                        cands.append((path, m, raw_attr, v, a, shown))
+    if not cands:
+        return True
+    path, m, raw_attr, v, a, shown = r.choice(cands)
+    w = getattr(m, v)
+    n = len(w)
+    b = r.randint(a + 2, n)            # the run a..b-1 has at least the two elements around the sibling
+    a = r.randint(0, a)
+    raw_before = list(getattr(m, raw_attr))
+    fb = [x for x in raw_before if not shown(x)]
+    how = r.choice(['del', 'del', 'del-negative', 'clear'])
+    desc = {'del': f'del {path}.{v}[{a}:{b}]', 'del-negative': f'del {path}.{v}[{a - n}:{b}]', 'clear': f'{path}.{v}.clear()'}[how]
+    try:
+        if how == 'del':
+            del w[a:b]
+        elif how == 'del-negative':
+            del w[a - n:b]
+        else:
+            w.clear()
+    except Exception as e:
+        col.skip(f'view run deletion raised {type(e).__name__} (C19/C10 decide refusals)')
+        return True
+    col.ev()
+    col.count('view_runs_with_a_sibling_inside')
+    col.nontrivial(text, tuple(log), desc)
+    fa = [x for x in getattr(m, raw_attr) if not shown(x)]
+    if len(fa) != len(fb) or any(x is not y for x, y in zip(fa, fb)):
+        col.violation(f'sibling-outside-the-view-changed:run:{how}', f'{desc}: elements of {raw_attr} that {v} does not show were '
+                      f'{[common.pr(x) for x in fb]} and are {[common.pr(x) for x in fa]}',
+                      {'text': text, 'lf': lf, 'log': log + [desc], 'after': common.store_text(f.token_store)})
+        return False
+    printed = common.store_text(f.token_store)
+    missing = [common.pr(x) for x in fb if common.pr(x) not in printed]
+    if missing:
+        col.violation(f'sibling-text-lost:run:{how}', f'{desc}: the text of {missing} is gone from the document',
+                      {'text': text, 'lf': lf, 'log': log + [desc], 'after': printed})
+        return False
+    return True
+
+
+from .c10 import VIEW_TYPES as _VIEW_TYPES  # noqa: E402  (which element types each view shows)
 
 
 def _gap_rule(op, items_before, gaps_before, items_after, gaps_after):
